@@ -178,7 +178,7 @@ class Gen:
                                                   collected_events=coll, collected_waiters=waiters)
         return BrokerState(is_running=rng.random() < 0.8, config=cfg, workers=workers)
 
-    def results(self, st: BrokerState, step: str) -> list:
+    def results(self, st: BrokerState, step: str, ip: Any = None) -> list:
         rng = self.rng
         ws = st.workers.get(step)
         wids = [w.waiter_id for w in ws.collected_waiters] if ws else []
@@ -208,6 +208,19 @@ class Gen:
             # unusual but legal combinations
             out.insert(0, rng.choice([R.DeleteCollectedEvent(event_id="default"),
                                       R.AddCollectedEvent(event_id="default", event=self.event(5))]))
+        if rng.random() < 0.08:
+            # one invocation that called collect_events two to four times on the same buffer: against a stale
+            # snapshot (or after its own first add) the first one schedules the re-run; the rest of the tick's
+            # collect results must then be skipped (C01: at most one CommandRunWorker per slot and tick)
+            live = ws.collected_events if ws else {}
+            snap = ip.shared_state.collected_events if ip is not None else {}
+            stale = [b for b, v in live.items() if len(v) > len(snap.get(b, []))]
+            buf = rng.choice(stale) if (stale and rng.random() < 0.7) else rng.choice(["default", "b01", "b02"])
+            own = ip.event if (ip is not None and rng.random() < 0.7) else self.event(rng.choice([5, 6, 7]))
+            adds = [R.AddCollectedEvent(event_id=buf, event=own) for _ in range(rng.choice([2, 3, 3, 4]))]
+            if rng.random() < 0.3:
+                adds.insert(rng.randint(1, len(adds)), R.AddCollectedEvent(event_id=rng.choice(["default", "b01"]), event=own))
+            out[0:0] = adds
         return out
 
     def tick(self, st: BrokerState, illformed: bool) -> Any:
@@ -219,7 +232,7 @@ class Gen:
             busy = [(n, ip) for n in names for ip in st.workers[n].in_progress]
             if busy and not (illformed and rng.random() < 0.3):
                 n, ip = rng.choice(busy)
-                return T.TickStepResult(step_name=n, worker_id=ip.worker_id, event=ip.event, result=self.results(st, n))
+                return T.TickStepResult(step_name=n, worker_id=ip.worker_id, event=ip.event, result=self.results(st, n, ip))
             n = rng.choice(names + (["s77"] if illformed else []))
             return T.TickStepResult(step_name=n, worker_id=rng.randint(0, 4), event=self.event(5), result=self.results(st, n))
         if r < 0.75:
@@ -300,4 +313,9 @@ def run_pair(g: Gen, illformed: bool) -> tuple[list[str], list[str], dict]:
     info["out"] = "crash" if out == "crash" else "ok"
     if isinstance(tk, T.TickStepResult):
         info["res"] = [type(r).__name__ for r in tk.result]
+        bufs = [r.event_id for r in tk.result if isinstance(r, R.AddCollectedEvent)]
+        if len(bufs) != len(set(bufs)):
+            # several collect results for one buffer in one tick: the at-most-one-re-run branch (C01)
+            nrun = sum(1 for c in (cmds if out != "crash" else []) if type(c).__name__ == "CommandRunWorker" and c.step_name == tk.step_name and c.id == tk.worker_id)
+            info["multi_collect"] = "rerun" if nrun else "no-rerun"
     return ops, outs, info
